@@ -26,6 +26,10 @@ type Case struct {
 	Detect  bool         `json:"detect"`          // DetectAtMostOne before solving
 	NbMax   int          `json:"nbmax,omitempty"` // lowered learned-constraint limit (verif hook): reduction of the learned PB constraints
 	Family  string       `json:"family,omitempty"`
+	// Late > 0 (problems without cost function): one more run in which the solver is built from the problem without its
+	// last Late constraints, these are added with AppendClause (their variables may be new to the solver), and only
+	// then is the strategy switched on: CuttingPlanes is an exported field that a caller may set at any time.
+	Late int `json:"late,omitempty"`
 }
 
 func build(c Case) *solver.Problem {
@@ -234,7 +238,108 @@ func check0(c Case, o *vf.Obs) error {
 }
 
 func check(c Case, o *vf.Obs) error {
-	return check0(c, o)
+	if err := check0(c, o); err != nil {
+		return err
+	}
+	if c.Late > 0 && c.Cost == nil {
+		return vf.Safely(func() error { return checkLate(c, o) })
+	}
+	return nil
+}
+
+// appendable: the constraint can be handed to AppendClause through the public clause constructors.
+func appendable(p gen.PC) bool {
+	switch p.Kind {
+	case "clause":
+		return len(p.Lits) > 0
+	case "atleast":
+		return p.K >= 1 && p.K <= len(p.Lits)
+	case "gteq":
+		if p.K < 1 || len(p.Lits) == 0 {
+			return false
+		}
+		sum := 0
+		for _, w := range p.Coefs {
+			if w < 1 {
+				return false
+			}
+			sum += w
+		}
+		return len(p.Coefs) == len(p.Lits) && sum >= p.K
+	}
+	return false
+}
+
+func checkLate(c Case, o *vf.Obs) error {
+	var all []gen.PC
+	if c.Front == "cnf" {
+		for _, cl := range c.Clauses {
+			all = append(all, gen.PC{Kind: "clause", Lits: cl})
+		}
+	} else {
+		all = c.Constrs
+	}
+	late := 0
+	for late < c.Late && late < len(all) && appendable(all[len(all)-1-late]) {
+		late++
+	}
+	if late == 0 {
+		return nil
+	}
+	o.Class("strategy-switched-on-after-appending")
+	head, tail := all[:len(all)-late], all[len(all)-late:]
+	prefix := c
+	prefix.Detect = false
+	if c.Front == "cnf" {
+		prefix.Clauses = c.Clauses[:len(c.Clauses)-late]
+		prefix.N = oracle.MaxVar(prefix.Clauses)
+	} else {
+		prefix.Constrs = head
+		prefix.N = oracle.MaxVarConstrs(gen.Sems(head))
+		if prefix.N < 1 {
+			prefix.N = 1
+		}
+	}
+	sems := gen.Sems(all)
+	n := c.N
+	if mv := oracle.MaxVarConstrs(sems); mv > n {
+		n = mv
+	}
+	gs.Arm(c.NbMax, 1_000_000)
+	defer gs.Arm(0, 0)
+	s := solver.New(build(prefix))
+	for _, p := range tail {
+		ls := make([]solver.Lit, len(p.Lits))
+		for i, l := range p.Lits {
+			ls[i] = solver.IntToLit(int32(l))
+		}
+		switch p.Kind {
+		case "clause":
+			s.AppendClause(solver.NewClause(ls))
+		case "atleast":
+			s.AppendClause(solver.NewCardClause(ls, p.K))
+		default:
+			s.AppendClause(solver.NewPBClause(ls, append([]int{}, p.Coefs...), p.K))
+		}
+	}
+	s.CuttingPlanes = true
+	st := s.Solve()
+	var truth bool
+	if n <= 20 {
+		_, truth = oracle.AnyModel(n, func(m uint64) bool { return oracle.AllTrue(sems, m) })
+	} else {
+		ref := solver.New(build(c))
+		truth = ref.Solve() == solver.Sat
+	}
+	if (st == solver.Sat) != truth {
+		return fmt.Errorf("[late-switch] solver built from the problem without its last %d constraints, these appended, then CuttingPlanes switched on: Solve = %v, satisfiable=%v", late, st, truth)
+	}
+	if st == solver.Sat {
+		if i := oracle.FirstFalse(sems, oracle.MaskOf(s.Model())); i >= 0 {
+			return fmt.Errorf("[late-switch] the model violates constraint #%d %v", i, sems[i])
+		}
+	}
+	return nil
 }
 
 func stepFails(c Case) bool { return c.N <= 12 }
@@ -262,6 +367,9 @@ func genCNF(t *rapid.T) Case {
 		c.Family = "threshold-n21-40"
 	}
 	c.Detect = rapid.Bool().Draw(t, "detect")
+	if gen.Chance(t, 1, 4, "late") {
+		c.Late = rapid.IntRange(1, 6).Draw(t, "lateN")
+	}
 	if rapid.Bool().Draw(t, "low") {
 		c.NbMax = rapid.IntRange(2, 30).Draw(t, "limit")
 	}
@@ -322,6 +430,9 @@ func genPB(front string) func(t *rapid.T) Case {
 			c.Cost = &cf
 		}
 		c.Detect = gen.Chance(t, 1, 3, "detect")
+		if gen.Chance(t, 1, 4, "late") {
+			c.Late = rapid.IntRange(1, 4).Draw(t, "lateN")
+		}
 		if rapid.Bool().Draw(t, "low") {
 			c.NbMax = rapid.IntRange(2, 30).Draw(t, "limit")
 		}
@@ -366,7 +477,7 @@ func genKnapsack(t *rapid.T) Case {
 var _ = strings.Contains
 
 func init() {
-	tail := "; each problem is solved/optimised with CuttingPlanes off and on; the verif hook hands every constraint learned by the cutting-planes analysis to the harness, which evaluates it on all models of the original problem (n<=20); asserted: same verdict and optimum as without the strategy and as brute force, valid model, no panic, step watchdog (10^6 loop iterations; a failure for n<=12); non-trivial = >=1 constraint learned by the cutting-planes analysis"
+	tail := "; each problem is solved/optimised with CuttingPlanes off and on (and, for a quarter of the problems without cost function, once more by a solver built without the last 1..6 constraints, which are then appended, the strategy being switched on last); the verif hook hands every constraint learned by the cutting-planes analysis to the harness, which evaluates it on all models of the original problem (n<=20); asserted: same verdict and optimum as without the strategy and as brute force, valid model, no panic, step watchdog (10^6 loop iterations; a failure for n<=12); non-trivial = >=1 constraint learned by the cutting-planes analysis"
 	vf.Register(
 		vf.Sub[Case]{Name: "cnf", Quick: 1200, Thorough: 25000, Gen: genCNF, Check: check, Floor: 0.3, StepLimitFails: stepFails,
 			Rule: "domain A, pure CNF: small formulas with odd clause shapes, parity/pigeonhole formulas, threshold 3-SAT n in 10..40, clique-rich formulas (what DetectAtMostOne rewrites); with/without prior DetectAtMostOne" + tail},
